@@ -11,59 +11,59 @@ CLAIMS = {
     'C01': dict(
         text='Deductive proof (Verus) of the cursor discipline of the sequential message parser, of the completeness / repetition-cap obligations and of the field-count linearity obligation (every field occurrence handed out by the parser is stored in the returned value) at every Ok exit of the 30 extracted parse_from_block4 bodies.',
         note='Trusted: std string search/trim contracts in verus/prelude.rs, field parsers abstracted by the SwiftField trait contract, Verus/Z3.',
-        design='DESIGN.md §4 C01', technique='contract-based deductive verification (Verus) of extracted real functions'),
+        design='DESIGN.md §5 C01', technique='contract-based deductive verification (Verus) of extracted real functions'),
     'C02': dict(
         text='Deductive proof (Verus) of a serialiser contract for every field struct (text == tag + components in the order and with the separators the parser reads) next to the exact-value clause of its parser, of the round-trip lemmas for dates / amounts / codes / numbering, and that the message-level serialisers emit the fields in the order the parser consumes them; number/date formatting and str::lines / str::split are assumed external contracts.',
         note='Trusted: prelude contracts, float/chrono formatting assumed, Verus/Z3.',
-        design='DESIGN.md §4 C02', technique='contract-based deductive verification (Verus): encode/decode inverse lemmas over function contracts'),
+        design='DESIGN.md §5 C02', technique='contract-based deductive verification (Verus): encode/decode inverse lemmas over function contracts'),
     'C04': dict(
         text='Deductive proof (Verus) that each extracted network-rule function returns its documented error codes iff an independently written rule specification (from the SR2025 rule text) is violated, for all messages, including the 23E code / additional-information / duplicate / order / forbidden-pair rules; code tables pinned. Rules left as declared assumptions (floating-point sums, iterator-adapter collections) are listed in the evidence.',
         note='Trusted: prelude contracts (Vec iteration idioms, String equality), f64 comparison uninterpreted, Verus/Z3.',
-        design='DESIGN.md §4 C04', technique='contract-based deductive verification (Verus): rule function == rule spec function'),
+        design='DESIGN.md §5 C04', technique='contract-based deductive verification (Verus): rule function == rule spec function'),
     'C05': dict(
         text='Deductive proof (Verus) of accept-sound / accept-complete / components-exact postconditions of the field primitives and of the parser of every field struct (89 parsers), for all UTF-8 strings.',
         note='Trusted: std/chrono contracts in verus/prelude.rs (string slicing, lines/split, integer parsing grammar, Unicode classes on ASCII), Verus/Z3. The letter-less heuristics of the option enums are abstracted (C14).',
-        design='DESIGN.md §4 C05', technique='contract-based deductive verification (Verus) of extracted real functions'),
+        design='DESIGN.md §5 C05', technique='contract-based deductive verification (Verus) of extracted real functions'),
     'C06': dict(
         text='Deductive proof (Verus) of the decidable part: decimal-shape guard of amount parsing, ISO-4217 exponent table for all strings, precision admitted <= precision emitted; value preservation through f64 formatting is assumed and listed.',
         note='Trusted: f64 parse grammar/value uninterpreted, float formatting assumed, prelude contracts, Verus/Z3.',
-        design='DESIGN.md §4 C06', technique='contract-based deductive verification (Verus)'),
+        design='DESIGN.md §5 C06', technique='contract-based deductive verification (Verus)'),
     'C07': dict(
         text='Deductive proof (Verus) of absence of panics (slice bounds and char boundaries, unwrap, overflow, index) and termination for every function under contract, with no ASCII assumption on inputs.',
         note='Covers the functions listed in the evidence only; complexity bound not expressible. Trusted: prelude contracts state std panic conditions, Verus/Z3.',
-        design='DESIGN.md §4 C07', technique='contract-based deductive verification (Verus): automatically generated safety obligations of extracted functions'),
+        design='DESIGN.md §5 C07', technique='contract-based deductive verification (Verus): automatically generated safety obligations of extracted functions'),
     'C09': dict(
         text='Deductive proof (Verus) of the error variant and payload (tag, message type, content) produced by every fetch method of the sequential parser, and that mandatory tags are fetched as required in the extracted message parsers.',
         note='Trusted: prelude contracts, SwiftField trait contract, Verus/Z3.',
-        design='DESIGN.md §4 C09', technique='contract-based deductive verification (Verus)'),
+        design='DESIGN.md §5 C09', technique='contract-based deductive verification (Verus)'),
     'C10': dict(
         text='Deductive proof (Verus) of fixed-offset header parsing (every component equals its documented byte range, lengths/directions rejected as documented), block extraction and tag re-emission.',
         note='Trusted: prelude contracts (find/starts_with), pad/truncate format specs assumed, Verus/Z3.',
-        design='DESIGN.md §4 C10', technique='contract-based deductive verification (Verus)'),
+        design='DESIGN.md §5 C10', technique='contract-based deductive verification (Verus)'),
     'C11': dict(
         text='Deductive proof (Verus), for all strings, that every date/time primitive and date-bearing field parser under contract accepts exactly the calendar-valid digit strings and yields the value given by one shared century/validity specification.',
         note='Trusted: chrono constructors (proleptic Gregorian validity), integer parsing grammar, string slicing contracts in verus/prelude.rs, Verus/Z3. chrono %y%m%d rendering assumed.',
-        design='DESIGN.md §4 C11', technique='contract-based deductive verification (Verus) of extracted real functions against one shared date specification'),
+        design='DESIGN.md §5 C11', technique='contract-based deductive verification (Verus) of extracted real functions against one shared date specification'),
     'C12': dict(
         text='Deductive proof (Verus) that each arm of the dispatch tables maps the announced type code to the body type with the same identifier, typed parse mismatches give T03, unsupported codes are reported as unsupported.',
         note='Trusted: prelude contracts, plugin glue around the extracted matches unverified, Verus/Z3.',
-        design='DESIGN.md §4 C12', technique='contract-based deductive verification (Verus) of extracted dispatch functions'),
+        design='DESIGN.md §5 C12', technique='contract-based deductive verification (Verus) of extracted dispatch functions'),
     'C13': dict(
         text='Deductive proof (Verus) that stop-on-first validation returns a prefix of the full list with equal emptiness (per extracted validate_network_rules), the result is a function of the message, adapters agree with the list.',
         note='Trusted: prelude contracts, Verus/Z3; plugin JSON glue unverified.',
-        design='DESIGN.md §4 C13', technique='contract-based deductive verification (Verus): prefix lemma over aggregator contracts'),
+        design='DESIGN.md §5 C13', technique='contract-based deductive verification (Verus): prefix lemma over aggregator contracts'),
     'C14': dict(
         text='Deductive proof (Verus) that parse_with_variant yields the variant named by the letter, heuristic parse returns only self-accepting variants, and the emitted tag carries the variant letter, for the option enums under contract.',
         note='Trusted: prelude contracts, Verus/Z3.',
-        design='DESIGN.md §4 C14', technique='contract-based deductive verification (Verus)'),
+        design='DESIGN.md §5 C14', technique='contract-based deductive verification (Verus)'),
     'C16': dict(
         text='Deductive proof (Verus) that the field-map tokeniser parse_block4_fields returns exactly the multimap of the documented scan (every marker-delimited field once, under its normalised tag, with its trimmed content and its running position), of tag normalisation against the documented keep-list, and of base-tag extraction, for all UTF-8 inputs. The consumption tracker, the sequential lookup and the sequence splitter (HashMap entry API, iterator/closure chains, sort_by_key) are outside the verifier subset and are NOT covered.',
         note='Trusted: multimap push/new wrappers (entry().or_default().push), std string search/trim contracts, UTF-8 offset axioms in verus/prelude.rs, Verus/Z3. Stamp monotonicity beyond 65535 fields is not claimed.',
-        design='DESIGN.md §4 C16', technique='contract-based deductive verification (Verus): loop invariant against an accumulator-passing scan specification'),
+        design='DESIGN.md §5 C16', technique='contract-based deductive verification (Verus): loop invariant against an accumulator-passing scan specification'),
     'C17': dict(
         text='Deductive proof (Verus) that the MT103/MT202/MT205 reject/return/cover predicates equal one shared code-word specification and that the plugin method selection follows the documented priority.',
         note='Trusted: str::contains contract, Any::downcast_ref assumed, Verus/Z3.',
-        design='DESIGN.md §4 C17', technique='contract-based deductive verification (Verus) against one shared code-word oracle'),
+        design='DESIGN.md §5 C17', technique='contract-based deductive verification (Verus) against one shared code-word oracle'),
 }
 
 NOT_APPLICABLE = {
